@@ -512,6 +512,7 @@ func (m *MycatPartitionPaddingModShard) FindForKey(key interface{}) (int, error)
 	if err != nil {
 		return -1, err
 	}
-	bigNumAbs := hack.Abs(bigNum)
-	return int(bigNumAbs % int64(m.mod)), nil
+	// |v| % n == |v % n|; unlike hack.Abs(v) the latter is never negative
+	// (hack.Abs(math.MinInt64) is math.MinInt64 itself)
+	return int(hack.Abs(bigNum % int64(m.mod))), nil
 }
